@@ -19,14 +19,14 @@ import (
 //      total order before any other use, unless they only flow into an error message.
 
 type mapLoop struct {
-	fn     *ssa.Function
-	header *ssa.BasicBlock
-	blocks map[*ssa.BasicBlock]bool
-	mapVal ssa.Value // the map (or the MapKeys() call result)
-	kind   string    // "range" | "MapKeys"
-	pos    token.Pos
+	fn          *ssa.Function
+	header      *ssa.BasicBlock
+	blocks      map[*ssa.BasicBlock]bool
+	mapVal      ssa.Value // the map (or the MapKeys() call result)
+	kind        string    // "range" | "MapKeys"
+	pos         token.Pos
 	hasBackEdge bool
-	keyVal ssa.Value
+	keyVal      ssa.Value
 }
 
 // findMapLoops locates range-over-map loops and loops over v.MapKeys() in fn.
